@@ -22,7 +22,7 @@ def step (l : VMLayout) (debug : Bool) (st : St) (args : List String) : St × St
     -- the process-global VM_MAP of hx_unit holds no spaces
     match num? a with
     | some a =>
-      if l.forceContiguous then (st, showLookup (map64Descriptor l (List.replicate 16 0) a))
+      if l.forceContiguous then (st, toString (map64DescriptorFixed l (List.replicate 16 0) a))
       else (st, toString (map32Descriptor (fun _ => 0) maxChunks a))
     | none => (st, "bad-op")
   | _ =>
@@ -53,7 +53,7 @@ def step (l : VMLayout) (debug : Bool) (st : St) (args : List String) : St × St
   | ["desc", a] =>
     match num? a with
     | some a =>
-      if l.forceContiguous then (st, showLookup (map64Descriptor l st.dm64 a))
+      if l.forceContiguous then (st, toString (map64DescriptorFixed l st.dm64 a))
       else (st, toString (map32Descriptor (fun i => (st.dm32.lookup i).getD 0) maxChunks a))
     | none => (st, "bad-op")
   | _ => (st, "bad-op")
